@@ -118,6 +118,9 @@ func render(v ssa.Value, d int, seen map[ssa.Value]bool) string {
 			case *ssa.FreeVar:
 				return "*" + r(a)
 			case *ssa.Alloc:
+				if sv := SingleStore(a); sv != nil {
+					return r(sv)
+				}
 				return "*" + r(a)
 			}
 			return "*" + r(x.X)
@@ -220,6 +223,62 @@ func RenderConds(cs []Cond) []string {
 			s = "!" + s
 		}
 		out = append(out, s)
+	}
+	return out
+}
+
+// SingleStore: if the local cell a is written exactly once (a spilled parameter or single-assignment variable
+// captured by a closure), returns the stored value; otherwise nil.
+func SingleStore(a *ssa.Alloc) ssa.Value {
+	var val ssa.Value
+	n := 0
+	for _, ref := range *a.Referrers() {
+		switch x := ref.(type) {
+		case *ssa.Store:
+			if x.Addr == ssa.Value(a) {
+				n++
+				val = x.Val
+			}
+		case *ssa.MakeClosure:
+			// captured by reference: the closure may write it
+			if fn, ok := x.Fn.(*ssa.Function); ok {
+				for i, b := range x.Bindings {
+					if b == ssa.Value(a) && i < len(fn.FreeVars) {
+						for _, r2 := range *fn.FreeVars[i].Referrers() {
+							if st, ok := r2.(*ssa.Store); ok && st.Addr == ssa.Value(fn.FreeVars[i]) {
+								n += 2
+							}
+						}
+					}
+				}
+			}
+		}
+	}
+	if n == 1 {
+		return val
+	}
+	return nil
+}
+
+// Deref resolves a load of a single-assignment local cell to the stored value (else returns v).
+func Deref(v ssa.Value) ssa.Value {
+	if ld, ok := v.(*ssa.UnOp); ok && ld.Op == token.MUL {
+		if a, ok := ld.X.(*ssa.Alloc); ok {
+			if sv := SingleStore(a); sv != nil {
+				return sv
+			}
+		}
+	}
+	return v
+}
+
+// StoredValues lists all values stored directly into local cell a within its function.
+func StoredValues(a *ssa.Alloc) []ssa.Value {
+	var out []ssa.Value
+	for _, ref := range *a.Referrers() {
+		if st, ok := ref.(*ssa.Store); ok && st.Addr == ssa.Value(a) {
+			out = append(out, st.Val)
+		}
 	}
 	return out
 }
